@@ -162,6 +162,10 @@ class SymArray(numpy.ndarray):
                 conv.append(a)
             elif isinstance(x, numpy.ndarray) and x.dtype != object:
                 conv.append(x.astype(object))
+            elif isinstance(x, (SymReal, SymFP, SymInt)):
+                a = numpy.empty((), dtype=object)  # numpy would coerce a float subclass to float64 and strip the proxy
+                a[()] = x
+                conv.append(a)
             else:
                 conv.append(x)
         out = kwargs.pop("out", None)
